@@ -226,6 +226,25 @@ theorem span_after_stop (s : St) (dt w : Nat) (peer : Bool) (sp : Span) (h : s.s
 
 end partial_
 
+/-! ## The stop sequence -/
+
+/-- **stop_sequence_runs_all** — whatever is in flight on the listener, as long as it completes
+within the router's shutdown grace period, `startstop.Stop` calls the `Stop` of every component,
+in order, and reports no error: the collector is drained and both transmissions are flushed also
+when shutdown is requested in the middle of a client upload. -/
+theorem stop_sequence_runs_all (grace : Nat) (finishIn : Option Nat)
+    (h : ∀ d, finishIn = some d → d ≤ grace) : stopSeq grace finishIn stopOrder = (stopOrder, false) := by
+  cases finishIn with
+  | none => simp [stopSeq, stopOrder, compStopOk]
+  | some d => have := h d rfl; simp [stopSeq, stopOrder, compStopOk, this]
+
+/-- with a grace period that is already over (60 ns instead of 60 s) a request in flight aborts the
+sequence at the router: the collector and the transmissions are never stopped -/
+theorem stop_sequence_aborts_when_grace_too_short :
+    stopSeq 60 (some 300000000) stopOrder = ([.app, .incomingRouter], true) := by decide
+
+example : (stopSeq 60000000000 (some 300000000) stopOrder).1.length = 6 := by decide
+
 /-! ## The shutdown flush and `Retry-After` -/
 
 /-- **stop_flush_honours_retry_after** (the code as it is: the wait before the one retry is
